@@ -363,7 +363,9 @@ class Checker:
             return
         conn = self.eng.clients[c]
         if self.eng.start_wait(c, ids):
-            self.waits[conn] = ids
+            # a wait is bound to the job objects that carry these ids when the request is served, i.e. at the next
+            # run (a killed id that is added again is a new job)
+            self.waits[conn] = list(ids)
             self.labels.add("wait")
 
     def op_finish(self, w, k, kind):
@@ -508,6 +510,8 @@ class Checker:
     def op_run(self):
         eng = self.eng
         blocked_before = self.registered_blocked()
+        for conn, waited in self.waits.items():
+            self.waits[conn] = [self.jobs[w] if not isinstance(w, MJob) else w for w in waited]
         eng.settle()
         self.process_events(blocked_before)
         self.pushes_since_run = 0
@@ -558,10 +562,10 @@ class Checker:
                 if p is not None and p["blocked"]:
                     self.labels.add("delivery-to-blocked-puller")
             elif ev["kind"] == "waited":
-                ids = self.waits.pop(conn, None)
-                for snap in ev["jobs"]:
-                    mj = self.jobs.get(snap.get("jobid"))
-                    if mj is None:
+                waited = self.waits.pop(conn, None) or []
+                for snap, mj in zip(ev["jobs"], waited):
+                    if mj.jobid != snap.get("jobid"):
+                        self.V("C17", "waiter-got-other-job", "client %s waited for %r and got %r" % (conn.name, mj.jobid, snap.get("jobid")))
                         continue
                     if not mj.done:
                         self.V("C17", "waiter-released-early", "client %s was released although job %r is not finished" % (conn.name, mj.jobid))
@@ -619,11 +623,11 @@ class Checker:
                     self.V("C16", "job-not-delivered-to-blocked-puller", "job %r (channel %r) is accepted, unfinished and held by nobody, yet %s stays blocked pulling %r" % (
                         mj.jobid, mj.channel, conn.name, p["channels"]))
         # waiters are released exactly when their jobs are finished
-        for conn, ids in list(self.waits.items()):
+        for conn, waited in list(self.waits.items()):
             if conn.closed:
                 continue
-            if all(self.jobs[i].done for i in ids):
-                self.V("C17", "waiter-not-released", "client %s still waits for %r although all are finished" % (conn.name, ids))
+            if all(m.done for m in waited):
+                self.V("C17", "waiter-not-released", "client %s still waits for %r although all are finished" % (conn.name, [m.jobid for m in waited]))
         self.check_internal()
 
     def check_internal(self):
